@@ -7,6 +7,7 @@ Leg B: rebuild the Rust harness against /repo's working tree, run it, pipe the c
        column inside Coq with vm_compute, judge.
 """
 import fcntl
+import itertools
 import glob
 import json
 import os
@@ -14,6 +15,13 @@ import re
 import subprocess
 import sys
 import time
+
+_uniq = itertools.count()
+
+
+def uniq():
+    return "%d_%d" % (os.getpid(), next(_uniq))
+
 
 VERIF = os.path.dirname(os.path.dirname(os.path.abspath(__file__)))
 COQ = os.path.join(VERIF, "coq")
@@ -360,7 +368,7 @@ def produce_lines(group, tier, seed, release=False, timeout=3000):
     naming a Python module in lib/gen/ with produce(tier, seed, release, out_path) -> error string
     (generated Rust programs compiled against /repo, compile-fail families, ...)."""
     os.makedirs(BUILD, exist_ok=True)
-    out_path = os.path.join(BUILD, "lines_%s_%s_%d.tsv" % (group.replace(":", "_"), "rel" if release else "dev", os.getpid()))
+    out_path = os.path.join(BUILD, "lines_%s_%s_%s.tsv" % (group.replace(":", "_"), "rel" if release else "dev", uniq()))
     if group.startswith("gen:"):
         import importlib
         sys.path.insert(0, os.path.join(VERIF, "lib"))
@@ -457,7 +465,7 @@ def vm_crosscheck(dump_path, n=120, timeout=600):
         if len(parts) == 3 and '"' not in parts[1] and '"' not in parts[0]:
             rows.append(parts)
     rows = rows[: n + 5]
-    casefile = os.path.join(BUILD, "cases_%d.v" % os.getpid())
+    casefile = os.path.join(BUILD, "cases_%s.v" % uniq())
     with open(casefile, "w") as f:
         f.write("From Coq Require Import String.\nFrom KV Require Import Glue.Dispatch.\nLocal Open Scope string_scope.\nSet Printing Depth 1000000.\nSet Printing Width 1000000.\n")
         f.write("Definition cases : list (string * string) := (\n")
@@ -465,8 +473,7 @@ def vm_crosscheck(dump_path, n=120, timeout=600):
             f.write('  ("%s", "%s") ::\n' % (fam, args))
         f.write("  nil)%list.\n")
         f.write("Eval vm_compute in List.map (fun c => run_line (fst c) (snd c)) cases.\n")
-    with Lock("coq.lock"):
-        p = run(["coqc", "-noglob", "-Q", COQ, "KV", casefile], cwd=BUILD, timeout=timeout)
+    p = run(["coqc", "-noglob", "-Q", COQ, "KV", casefile], cwd=BUILD, timeout=timeout)
     for ext in (".v", ".vo", ".vok", ".vos", ".glob"):
         try:
             os.remove(casefile[:-2] + ext)
